@@ -15,6 +15,7 @@ import (
 
 	"verif/harness/internal/c16"
 	"verif/harness/internal/c20"
+	"verif/harness/internal/sso"
 )
 
 func main() {
@@ -36,6 +37,8 @@ func main() {
 	stdlog.SetOutput(io.Discard)
 	var err error
 	switch prop {
+	case "C02", "C05", "C06", "C08":
+		err = sso.Run(prop, *out, *tier, *seed)
 	case "C16":
 		err = c16.Run(*out, *tier, *seed)
 	case "C20":
